@@ -274,6 +274,11 @@ class FakeSnowflakeCursor:
             self._conn.database = set_database
             self._conn.database_set = True
 
+            if set_schema := transformed.args.get("set_schema"):
+                # USE SCHEMA database.schema
+                self._conn.schema = set_schema
+                self._conn.schema_set = True
+
         elif set_schema := transformed.args.get("set_schema"):
             self._conn.schema = set_schema
             self._conn.schema_set = True
